@@ -16,11 +16,15 @@ pub struct Case {
     pub kseed: u64,
     pub pos: u128,
     pub len: usize,
+    /// what happens on the instance *before* the measured seek+apply:
+    /// 0 nothing, 1 some bytes are applied at position 0, 2 a request at the very end of the
+    /// stream (refused for the 32-bit counter, wrapping-free for the 64-bit one)
+    pub pre: u8,
 }
 
 impl Case {
     pub fn desc(&self) -> String {
-        format!("ty={} fb={} kseed={} pos={} len={}", self.ty, self.fb, self.kseed, self.pos, self.len)
+        format!("ty={} fb={} kseed={} pos={} len={} pre={}", self.ty, self.fb, self.kseed, self.pos, self.len, self.pre)
     }
 }
 
@@ -54,7 +58,24 @@ pub fn exec(cx: &mut Ctx, c: &Case) {
     api::force_backend(c.fb);
     let res = guarded(|| {
         let mut ci = api::new_cipher(c.ty, &key, &nonce);
-        if c.pos != 0 {
+        match c.pre {
+            1 => {
+                let mut junk = vec![0u8; 1 + (c.kseed % 300) as usize];
+                ci.try_apply(&mut junk).map_err(|_| "apply")?;
+            }
+            2 => {
+                // the outcome of this request is C11's business; here only what follows matters
+                let mut junk = [0u8; 200];
+                if layout == Layout::Ietf {
+                    ci.try_seek(SeekTy::U64, (1u128 << 38) - 1 - (c.kseed % 63) as u128, false).map_err(|_| "seek")?;
+                } else {
+                    ci.try_seek(SeekTy::U64, u64::MAX as u128 - (c.kseed % 63) as u128, false).map_err(|_| "seek")?;
+                }
+                let _ = ci.try_apply(&mut junk);
+            }
+            _ => {}
+        }
+        if c.pos != 0 || c.pre != 0 {
             let ty = if c.pos > u32::MAX as u128 { SeekTy::U64 } else { SeekTy::U32 };
             ci.try_seek(ty, c.pos, false).map_err(|_| "seek")?;
         }
@@ -125,7 +146,12 @@ pub fn run(cx: &mut Ctx) {
         } else if pos > u64::MAX as u128 {
             pos = u64::MAX as u128;
         }
-        let c = Case { ty, fb, kseed: rng.u64(), pos, len };
+        let pre = match rng.below(8) {
+            0 => 1,
+            1 => 2,
+            _ => 0,
+        };
+        let c = Case { ty, fb, kseed: rng.u64(), pos, len, pre };
         cx.log.announce(&c.desc());
         if len >= 1 {
             cx.log.nontrivial();
@@ -139,6 +165,7 @@ pub fn run(cx: &mut Ctx) {
         };
         cx.log.class(&format!("{}/{}/{}/{}", ty, api::BACKEND_NAMES[fb as usize], lc, blk_class(layout, pos / 64)));
         cx.log.class(&format!("posmod64={}", pos % 64));
+        cx.log.class(&format!("pre-history={}", ["none", "applied-elsewhere", "request-at-end-of-stream"][pre as usize]));
         cx.log.class(&format!("config={}-{}/{}", kind, api::profile(), api::BACKEND_NAMES[fb as usize]));
         exec(cx, &c);
     }
@@ -147,7 +174,7 @@ pub fn run(cx: &mut Ctx) {
 pub fn replay(cx: &mut Ctx, desc: &str) {
     let d = Desc::parse(desc);
     let ty = api::CIPHERS.iter().find(|t| **t == d.str("ty")).expect("cipher type");
-    let c = Case { ty, fb: d.u64("fb") as u8, kseed: d.u64("kseed"), pos: d.u128("pos"), len: d.u64("len") as usize };
+    let c = Case { ty, fb: d.u64("fb") as u8, kseed: d.u64("kseed"), pos: d.u128("pos"), len: d.u64("len") as usize, pre: d.u64_or("pre", 0) as u8 };
     cx.log.announce(&c.desc());
     exec(cx, &c);
 }
